@@ -73,6 +73,9 @@ T = {
          "classes limited to those the statement lists; bounded shapes", "3/C20"),
 }
 
+# properties whose check is finished (silent on the unchanged tree, caught at least one seeded change)
+READY = set(open(os.path.join(HERE, "tools", "READY.txt")).read().split())
+
 TITLES = {}
 with open(os.path.join(HERE, "properties.jsonl"), encoding="utf-8") as f:
     for line in f:
@@ -85,7 +88,7 @@ def main():
     checks, na = [], []
     for pid in sorted(T):
         tech, text, note, ref = T[pid]
-        if os.path.exists(os.path.join(HERE, "checks", MODULES[pid] + ".py")):
+        if pid in READY and os.path.exists(os.path.join(HERE, "checks", MODULES[pid] + ".py")):
             checks.append({
                 "property_id": pid,
                 "quick_cmd": "%s %s --tier quick" % (PY, pid),
